@@ -96,7 +96,7 @@ def crossratio(
         if not np.all(is_collinear(a, b, c, d)):
             raise NotCollinear("The points are not collinear: " + str([a, b, c, d]))
 
-        basis = np.stack([a.array, b.array], axis=-2)
+        basis = np.stack(np.broadcast_arrays(a.array, b.array), axis=-2)
         a = matvec(basis, a.array)
         b = matvec(basis, b.array)
         c = matvec(basis, c.array)
